@@ -538,6 +538,27 @@ class linqset(linkseq[_T], MutableSequenceSet[_T]):
         except KeyError:
             raise Emsg.MissingValue(value) from None
 
+    def __setitem__(self, i, value) -> None:
+        'Set value(s) by index/slice, keeping the hash table in step.'
+        if isinstance(i, SupportsIndex):
+            links = (self._link_at(i),)
+        elif isinstance(i, slice):
+            value = tuple(value)
+            links = tuple(iter_links_sliced(self, i))
+            if len(set(value)) != len(value):
+                for v in value:
+                    if value.count(v) > 1:
+                        raise Emsg.DuplicateValue(v)
+        else:
+            links = ()
+        olds = tuple(link.value for link in links)
+        super().__setitem__(i, value)
+        table = self.__table
+        for old in olds:
+            del table[old]
+        for link in links:
+            table[link.value] = link
+
     def _seed(self, link: HashLink, /) -> None:
         super()._seed(link)
         self.__table[link.value] = link
